@@ -1094,3 +1094,36 @@ def t14(ctx, res):
     p = ctx.func("parse")
     res.check(has("MV_s = _ParseState()", p) and len(find("parse_element(MV_x, MV_s)", p)) >= 2, p, "state = _ParseState(); shared by root and definitions",
               reason="root and definitions share one state")
+
+
+# --------------------------------------------------------------------- T15
+@rule("T15", "every object class that can be the target of a $ref is emitted under definitions")
+def t15(ctx, res):
+    sj = ctx.func("serialize_json")
+    sr = ctx.func("_serialize_recursive")
+    emits_ref = has("{'$ref': MV__}", sr) and has("isinstance(MV_d, ObjectMeta) and MV_o", sr)
+    res.judge(True if emits_ref else None, sr, "object classes are emitted as {'$ref': '#/definitions/<name>'}",
+              reason="references are produced for every nested object class")
+    vb = view(sj, ctx.prog, keep=("object_classes", "primary")).body
+    verdict = None
+    detail = {}
+    for b in builders(vb):
+        if b.kind != "dict" or "object_classes" not in norm(b.iter) and "get_object_classes" not in norm(b.iter):
+            continue
+        if b.key is None or "__name__" not in norm(b.key):
+            continue
+        gt = b.guard_texts()
+        detail["filters"] = gt
+        if not gt:
+            verdict = True
+        else:
+            excl = [g for g in gt if "primary" in g or "elements[0]" in g]
+            if len(gt) == 1 and excl and (" or " in gt[0] or "any(" in gt[0] or " in " in gt[0].replace(" is not ", " ")):
+                verdict = True   # the root is dropped only when nothing refers to it
+            elif excl:
+                verdict = False
+            else:
+                verdict = None
+    res.judge(verdict, sj, "definitions = {cls.__name__: ... for every reachable object class}", detail=detail,
+              reason="the first root is left out of `definitions` unconditionally, but another root may refer to it "
+                     "(serialize_json(A, B) with B.a: A emits a dangling '#/definitions/A')")
